@@ -1,8 +1,8 @@
 \* all chains of <= 2 slices over every quick shape; no writes
 SPECIFICATION Spec
 CONSTANTS
-  Shapes <- ShapesQ
-  StepVals <- Steps12
+  Shapes <- ShapesT
+  StepVals <- Steps123
   MaxSlices = 2
   MaxWrites = 0
   MaxReshapes = 0
